@@ -93,6 +93,38 @@ def main():
         if other.made:
             failures.append({"what": "the repr of a neighbouring, satisfied contract was used", "repr": label})
         summary[label] = {"lines": len(lines), "longest_rendering": longest, "message_length": len(msg)}
+    # the limits of a repr are tightened *after* the contracts were declared (an application that configures
+    # icontract.aRepr, or its own Repr, at start-up after its modules were imported): they apply all the same
+    for label, make in (("default, tightened later", lambda: icontract._globals.aRepr),
+                        ("user-supplied, tightened later", lambda: reprlib.Repr())):
+        rr = make()
+        saved = dict(vars(rr))
+        try:
+            kw = {} if rr is icontract._globals.aRepr else {"a_repr": rr}
+
+            @icontract.require(lambda lst: len(lst) < 10, **kw)
+            def g(lst, txt, dct, nested, tup, num, st):
+                return None
+            for k, v in vars(small()).items():
+                setattr(rr, k, v)
+            try:
+                g(**BIG)
+                failures.append({"what": "no violation", "repr": label})
+                continue
+            except icontract.ViolationError as err:
+                msg = str(err)
+            now = small()
+            values = dict(BIG)
+            values["len(lst)"] = len(BIG["lst"])
+            for ln in msg.split("\n")[2:]:
+                key = ln.split(" was ")[0]
+                if key in values and ln != "%s was %s" % (key, now.repr(values[key])):
+                    failures.append({"what": "line for %s does not obey the limits the repr has at the time of the violation" % key,
+                                     "repr": label, "line": ln[:200], "expected": ("%s was %s" % (key, now.repr(values[key])))[:200]})
+            summary[label] = {"message_length": len(msg)}
+        finally:
+            for k, v in saved.items():
+                setattr(rr, k, v)
     json.dump({"failures": failures, "summary": summary}, sys.stdout)
 
 
